@@ -43,7 +43,7 @@ def main():
         for p in props:
             env2 = dict(os.environ, SIGPY_REPO=wt, VERIF_EVIDENCE_DIR="/tmp/mutrun/evidence")
             r = sh([os.path.join(verif, "check"), p, "--tier", tier], env=env2, cwd=verif)
-            v = [l for l in r.stdout.split("\n") if l.startswith("VIOLATION") or l.startswith("KNOWN-FINDING")]
+            v = [l for l in r.stdout.split("\n") if l.startswith("VIOLATION")] + [l[:120] for l in r.stdout.split("\n") if l.startswith("KNOWN-FINDING")]
             last = [l for l in r.stdout.split("\n") if l.startswith(p + " tier=")]
             print("%s exit=%d %s | %s" % (p, r.returncode, "; ".join(v)[:300], (last or [""])[0][:200]))
             if r.returncode != 1:
